@@ -205,31 +205,48 @@ def cmd_text(ws, l):
         excl = 'case "$f" in ' + "|".join(t["excl"]) + ") continue;; esac; "
     if lst:
         L.append("{ " + "; ".join(lst) + "; } | LC_ALL=C sort -u | while IFS= read -r f; do " + excl +
-                 "printf 'I %s\\n' \"" + pre + "$f\"; cat \"$f\"; done > \"$c\"")
+                 "printf '%s\\n' \"$f\"; done > \"$c.l\"")
+    else:
+        L.append(': > "$c.l"')
+    L.append("while IFS= read -r f; do printf 'I %s\\n' \"" + pre + "$f\"; cat \"$f\"; done < \"$c.l\" > \"$c\"")
     for d in rdeps(ws, l):
         dt = ws["targets"][d]
         for o in sorted_outs(dt):
             p = out_path(dt, o)
             L.append("printf 'D %s\\n' " + q(p) + ' >> "$c"')
             if o["dir"]:
-                L.append('( cd "$W/' + p + "\" && find . -type f | LC_ALL=C sort | while IFS= read -r f; do printf 'F %s\\n' \"$f\"; cat \"$f\"; done ) >> \"$c\"")
+                L.append('( cd "$W/' + p + "\" && find . \\( -type f -o -type l \\) | LC_ALL=C sort | while IFS= read -r f; do "
+                         "if [ -L \"$f\" ]; then printf 'L %s %s\\n' \"$f\" \"$(readlink \"$f\")\"; "
+                         "else printf 'F %s\\n' \"$f\"; cat \"$f\"; fi; done ) >> \"$c\"")
             else:
                 L.append('cat "$W/' + p + '" >> "$c"')
-    for o in sorted_outs(t):
+    if t.get("split"):
+        L.append('n=$(wc -l < "$c.l")')
+    for k, o in enumerate(sorted_outs(t)):
         if o["rel"] in t.get("skip", []):
             continue
         p = out_path(t, o)
         hdr = "printf 'T %s %s\\n' " + q(t["salt"]) + " " + q(p)
         if o["dir"]:
-            L.append('rm -rf "$W/' + p + '"; mkdir -p "$W/' + p + '/sub"')
-            L.append("{ " + hdr + '; cat "$c"; } > "$W/' + p + '/a.txt"')
-            L.append("{ " + hdr + '; cat "$c"; printf \'+\\n\'; } > "$W/' + p + '/sub/b.txt"')
+            D = '"$W/' + p
+            L.append('rm -rf ' + D + '"; mkdir -p ' + D + '/sub"')
+            L.append("{ " + hdr + '; cat "$c"; } > ' + D + '/a.txt"')
+            L.append("{ " + hdr + '; cat "$c"; printf \'+\\n\'; } > ' + D + '/sub/b.txt"')
+            L.append('ln -s a.txt ' + D + '/link"')
+            L.append('if [ -s "$c.l" ]; then mkdir -p ' + D + '/in"; fi')
+            L.append('while IFS= read -r f; do cat "$f" > ' + D + '/in/$(printf \'%s\' "' + pre + '$f" | tr / _)"; done < "$c.l"')
         else:
             L.append('mkdir -p "$(dirname "$W/' + p + '")"')
-            L.append("{ " + hdr + '; cat "$c"; } > "$W/' + p + '"')
+            normal = "{ " + hdr + '; cat "$c"; } > "$W/' + p + '"'
+            if t.get("split"):
+                # splitter: output k is a copy of input (k mod n); the order of outputs is the canonical (sorted) one
+                L.append('if [ "$n" -gt 0 ]; then f=$(sed -n "$(( ' + str(k) + ' % n + 1 ))p" "$c.l"); { printf \'S\\n\'; cat "$f"; } > "$W/' + p +
+                         '"; else ' + normal + "; fi")
+            else:
+                L.append(normal)
     for p, content in t.get("sets", []):
         L.append('mkdir -p "$(dirname "$W/' + p + '")"; printf \'%s\' ' + q(content) + ' > "$W/' + p + '"')
-    L.append('rm -f "$c"')
+    L.append('rm -f "$c" "$c.l"')
     return "\n".join(L)
 
 
@@ -293,6 +310,21 @@ def sync_ws(root, old, new):
 def apply_writes(root, writes):
     for w in writes:
         if isinstance(w, dict):
+            if "dirtamper" in w:
+                d = os.path.join(root, w["dirtamper"])
+                if os.path.isdir(d):
+                    if w["op"] == "extra":
+                        write_file(d, "zz_stale.txt", "stale\n")
+                    elif w["op"] == "extrasub":
+                        write_file(d, "in/zz_stale.in", "stale\n")
+                    elif w["op"] == "mod":
+                        write_file(d, "a.txt", "modified\n")
+                    elif w["op"] == "rmfile":
+                        try:
+                            os.remove(os.path.join(d, "sub", "b.txt"))
+                        except FileNotFoundError:
+                            pass
+                continue
             shutil.rmtree(os.path.join(root, w["rmtree"]), ignore_errors=True)
             continue
         p, c = w
@@ -309,18 +341,29 @@ def apply_writes(root, writes):
             write_file(root, p, c)
 
 
+DIR_MAGIC = b"\x00DIR\x00"
+
+
+def _fr(b):
+    return str(len(b)).encode() + b":" + b
+
+
 def read_path(root, p):
-    """canonical value of a path: file bytes; for a directory the listing `F ./rel\\n<content>`; None if absent"""
+    """canonical value of a path: file bytes; for a directory the encoded entry set (DirVal.encTree in Lean); None if absent"""
     full = os.path.join(root, p)
-    if os.path.isdir(full):
+    if os.path.isdir(full) and not os.path.islink(full):
         acc = []
         for dp, _, fns in os.walk(full):
             for fn in fns:
                 rel = "./" + os.path.relpath(os.path.join(dp, fn), full)
                 acc.append(rel)
-        out = b""
+        out = DIR_MAGIC
         for rel in sorted(acc, key=lambda s: s.encode()):
-            out += b"F " + rel.encode() + b"\n" + open(os.path.join(full, rel), "rb").read()
+            fp = os.path.join(full, rel)
+            if os.path.islink(fp):
+                out += b"L" + _fr(rel.encode()) + _fr(os.readlink(fp).encode())
+            else:
+                out += b"F" + _fr(rel.encode()) + _fr(open(fp, "rb").read())
         return out.decode("latin-1")
     if os.path.isfile(full):
         return open(full, "rb").read().decode("latin-1")
@@ -338,6 +381,7 @@ def watch_paths(hist):
     for s in hist["steps"]:
         if s["k"] == "edit":
             paths.update(w[0] for w in s.get("writes", []) if not isinstance(w, dict))
+            paths.update(w["dirtamper"] for w in s.get("writes", []) if isinstance(w, dict) and "dirtamper" in w)
     return sorted(paths)
 
 
@@ -384,6 +428,10 @@ def read_trace(trace, pos):
     return [x for x in data[pos:].split("\n") if x], len(data)
 
 
+def cache_prefix(wsdir):
+    return hashlib.sha256(wsdir.encode()).hexdigest()[:16] + "-" + os.path.basename(wsdir)
+
+
 def cache_dir(root_dir):
     for d in os.listdir(root_dir):
         c = os.path.join(root_dir, d, "cache")
@@ -417,6 +465,8 @@ def build_args(step, force_minimal=None):
 def run_real(grog, hist, base, force_minimal=None, upto=None):
     """Run the history against the real binary in `base` (fresh). Returns the list of build observations."""
     shutil.rmtree(base, ignore_errors=True)
+    base = os.path.realpath(base)
+    nmoved = 0
     wsdir, root_dir, trace = os.path.join(base, "ws"), os.path.join(base, "root"), os.path.join(base, "trace")
     os.makedirs(wsdir)
     os.makedirs(root_dir)
@@ -431,6 +481,17 @@ def run_real(grog, hist, base, force_minimal=None, upto=None):
             sync_ws(wsdir, ws, s["ws"])
             ws = s["ws"]
             apply_writes(wsdir, s.get("writes", []))
+        elif s["k"] == "relocate":
+            # the same checkout at another absolute path, seeing the same local cache (the per-workspace cache directory is
+            # selected by sha256(workspace path)[:16]-basename: it is renamed along, like a second clone sharing a cache)
+            nmoved += 1
+            new = os.path.join(base, "moved%d" % nmoved, "elsewhere", "ws")
+            os.makedirs(os.path.dirname(new))
+            shutil.move(wsdir, new)
+            oldp, newp = os.path.join(root_dir, cache_prefix(wsdir)), os.path.join(root_dir, cache_prefix(new))
+            if os.path.isdir(oldp):
+                os.rename(oldp, newp)
+            wsdir = new
         elif s["k"] == "taint":
             rc, out = run_grog(grog, wsdir, root_dir, trace, ["taint"] + s["patterns"])
             if rc != 0:
@@ -477,7 +538,7 @@ def model_targets(ws, fixes, extra_files=None):
         out.append({
             "label": l,
             "cmd": {"salt": t["salt"], "beh": t.get("beh", 0), "writes": writes,
-                    "sets": [[p, c] for p, c in t.get("sets", [])]},
+                    "sets": [[p, c] for p, c in t.get("sets", [])], "split": bool(t.get("split"))},
             "inputs": [pre + r for r in resolved_inputs(ws, l, extra_files)],
             "outs": outs, "deps": deps,
             "hdeps": deps if fixes["alias"] else old, "ldeps": deps if fixes["alias"] else old,
@@ -492,7 +553,7 @@ def model_request(hist, fixes=ALL_FIXES, force_minimal=None):
     """the `build.simulate` request predicting the history (the model tracks the whole file system itself)"""
     ws = hist["ws"]
     watch = watch_paths(hist)
-    steps = [{"k": "edit", "targets": model_targets(ws, fixes), "writes": []}]
+    steps = [{"k": "edit", "targets": model_targets(ws, fixes), "writes": [], "tampers": []}]
     files = [[p, c] for p, c in sorted(ws["files"].items())]
     for s in hist["steps"]:
         if s["k"] == "edit":
@@ -504,10 +565,16 @@ def model_request(hist, fixes=ALL_FIXES, force_minimal=None):
                     writes.append([p, c])
             for w in s.get("writes", []):
                 if isinstance(w, dict):
+                    if "dirtamper" in w:
+                        writes.append({"path": w["dirtamper"], "op": w["op"]})
+                        continue
                     raise ValueError("rmtree writes have no model counterpart; expand them to paths")
                 writes.append([w[0], w[1]])
             ws = s["ws"]
-            steps.append({"k": "edit", "targets": model_targets(ws, fixes), "writes": writes})
+            steps.append({"k": "edit", "targets": model_targets(ws, fixes), "writes": [w for w in writes if not isinstance(w, dict)],
+                          "tampers": [w for w in writes if isinstance(w, dict)]})
+        elif s["k"] == "relocate":
+            pass
         elif s["k"] == "taint":
             steps.append({"k": "taint", "labels": matched_targets(ws, s["patterns"])})
         elif s["k"] == "drop":
@@ -584,7 +651,7 @@ def compare(hist, real, model, multiset=True):
 # generators
 # ------------------------------------------------------------------------------------------------
 
-def gen_ws(rng, n=None, aliases=True, dirs=True, multi_out=True, nocache_p=0.0, checks_p=0.0):
+def gen_ws(rng, n=None, aliases=True, dirs=True, multi_out=True, nocache_p=0.0, checks_p=0.0, split_p=0.1, shared_p=0.25, dir_p=0.3):
     """layered DAG of n targets (dependencies point to earlier targets), 1-2 targets per package"""
     n = n or rng.randint(2, 6)
     ws = {"targets": {}, "aliases": {}, "files": {}}
@@ -640,7 +707,7 @@ def gen_ws(rng, n=None, aliases=True, dirs=True, multi_out=True, nocache_p=0.0, 
             outs.append({"dir": False, "rel": rng.choice(["o%d.txt" % i, "out%d/o%d.txt" % (i, i)])})
             if multi_out and rng.random() < 0.3:
                 outs.append({"dir": False, "rel": "o%d_b.txt" % i})
-            if dirs and rng.random() < 0.3:
+            if dirs and rng.random() < dir_p:
                 outs.append({"dir": True, "rel": "dist%d" % i})
         t = {"pkg": pkg, "name": name, "globs": globs, "excl": excl, "salt": "s%d" % rng.randint(0, 9), "deps": deps,
              "outs": outs, "fp": {}, "nocache": rng.random() < nocache_p, "checks": [], "beh": 0, "skip": [], "sets": []}
@@ -654,8 +721,35 @@ def gen_ws(rng, n=None, aliases=True, dirs=True, multi_out=True, nocache_p=0.0, 
                 t["sets"] = [[flag, "ok\n"]]
             else:
                 ws["files"][flag] = "ok\n"
+        # splitter: >= 2 inputs, 2 file outputs, output k = copy of input k (an edit can make the outputs swap contents)
+        if rng.random() < split_p and kind in ("star", "src") and not excl:
+            pre = pkg + "/"
+            have = [f for f in ws["files"] if f.startswith(pre) and any(glob_match(g, f[len(pre):]) for g in globs)]
+            if len(have) < 2:
+                ws["files"][pre + (globs[0].replace("*", "zz"))] = "v%d\n" % rng.randint(0, 99)
+            t["split"] = True
+            t["outs"] = [{"dir": False, "rel": "o%d.txt" % i}, {"dir": False, "rel": "o%d_b.txt" % i}]
         ws["targets"][l] = t
         labels.append(l)
+    # two targets of one package sharing the same single glob, one of them excluding the file that sorts first
+    if rng.random() < shared_p:
+        cands = [x for x in labels if len(ws["targets"][x]["globs"]) == 1 and "*" in ws["targets"][x]["globs"][0]
+                 and "**" not in ws["targets"][x]["globs"][0] and not ws["targets"][x]["excl"]]
+        if cands:
+            v = rng.choice(cands)
+            vt = ws["targets"][v]
+            i = len(labels)
+            pre = vt["pkg"] + "/"
+            matches = sorted(f[len(pre):] for f in ws["files"] if f.startswith(pre) and glob_match(vt["globs"][0], f[len(pre):]))
+            if len(matches) < 2:
+                extra = vt["globs"][0].replace("*", "zz")
+                ws["files"][pre + extra] = "v%d\n" % rng.randint(0, 99)
+                matches = sorted(matches + [extra])
+            name = "t%d" % i
+            l2 = lab(vt["pkg"], name)
+            ws["targets"][l2] = {"pkg": vt["pkg"], "name": name, "globs": list(vt["globs"]), "excl": [matches[0]],
+                                 "salt": "s%d" % rng.randint(0, 9), "deps": [], "outs": [{"dir": False, "rel": "o%d.txt" % i}],
+                                 "fp": {}, "nocache": False, "checks": [], "beh": 0, "skip": [], "sets": []}
     return ws
 
 
@@ -672,7 +766,7 @@ def gen_edit(rng, ws, kinds=None):
     l = rng.choice(labels)
     t = ws["targets"][l]
     kinds = kinds or ["content", "content", "addfile", "rmfile", "rename", "salt", "salt", "outs", "fp", "adddep", "rmdep",
-                      "realias", "viaalias", "nocache"]
+                      "realias", "viaalias", "nocache", "swapin", "exclfile"]
     k = rng.choice(kinds)
     pre = t["pkg"] + "/" if t["pkg"] else ""
     srcs = src_files_of(ws, l)
@@ -715,6 +809,8 @@ def gen_edit(rng, ws, kinds=None):
         t["salt"] = "s%d" % rng.randint(10, 99)
         return ws, [], "command of %s" % l
     if k == "outs":
+        if t.get("split"):
+            return None
         i = int(t["name"][1:])
         r = rng.random()
         if t["outs"] and r < 0.4:
@@ -772,6 +868,27 @@ def gen_edit(rng, ws, kinds=None):
             ws["targets"][d]["salt"] = "s%d" % rng.randint(100, 199)
             return ws, [], "command of %s (reaches %s through alias %s)" % (d, x, a)
         return None
+    if k == "swapin":
+        sp = [x for x in labels if ws["targets"][x].get("split")]
+        if not sp:
+            return None
+        x = rng.choice(sp)
+        fsx = src_files_of(ws, x)
+        if len(fsx) < 2 or ws["files"][fsx[0]] == ws["files"][fsx[1]]:
+            return None
+        ws["files"][fsx[0]], ws["files"][fsx[1]] = ws["files"][fsx[1]], ws["files"][fsx[0]]
+        return ws, [], "swap contents of %s and %s (outputs of %s swap)" % (fsx[0], fsx[1], x)
+    if k == "exclfile":
+        ex = [(x, e) for x in labels for e in ws["targets"][x].get("excl", [])]
+        if not ex:
+            return None
+        x, e = rng.choice(ex)
+        xt = ws["targets"][x]
+        pth = (xt["pkg"] + "/" if xt["pkg"] else "") + e
+        if pth not in ws["files"]:
+            return None
+        ws["files"][pth] = "q%d\n" % rng.randint(100, 999)
+        return ws, [], "content of %s (excluded by %s only)" % (pth, x)
     if k == "nocache":
         t["nocache"] = not t.get("nocache")
         return ws, [], "toggle no-cache of %s" % l
@@ -809,12 +926,14 @@ def gen_edit(rng, ws, kinds=None):
     return None
 
 
-def gen_tamper(rng, ws, kinds=("delete", "modify", "rmdir", "moddir", "extradir")):
+def gen_tamper(rng, ws, kinds=("delete", "modify", "rmdir", "moddir", "extradir", "rmindir"), prefer_dirs=0.5):
     """tamper with a declared output path; returns (writes for the real side expanded to paths, description)"""
     outs = [(l, o) for l, t in ws["targets"].items() for o in t["outs"]]
     if not outs:
         return None
-    l, o = rng.choice(sorted(outs, key=lambda x: (x[0], x[1]["rel"])))
+    outs = sorted(outs, key=lambda x: (x[0], x[1]["rel"]))
+    douts = [x for x in outs if x[1]["dir"]]
+    l, o = rng.choice(douts) if douts and rng.random() < prefer_dirs else rng.choice(outs)
     p = out_path(ws["targets"][l], o)
     k = rng.choice(kinds)
     if not o["dir"]:
@@ -825,7 +944,9 @@ def gen_tamper(rng, ws, kinds=("delete", "modify", "rmdir", "moddir", "extradir"
         return None
     if k in ("delete", "rmdir"):
         return [[p, None]], "delete directory %s" % p
-    return None
+    op = {"moddir": "mod", "extradir": rng.choice(["extra", "extrasub"])}.get(k, "rmfile")
+    return [{"dirtamper": p, "op": op}], "%s inside directory %s (symlink left in place)" % (
+        {"mod": "modify a.txt", "extra": "add stale file", "extrasub": "add stale file in in/", "rmfile": "remove sub/b.txt"}[op], p)
 
 
 def shift_pair(rng, ws):
@@ -851,6 +972,12 @@ def gen_history(rng, family="mixed", nsteps=None, full=False, minimal=None):
         kw["nocache_p"] = 0.3
     if family == "checks":
         kw["checks_p"] = 0.6
+    if family == "swap":
+        kw.update(split_p=0.6, dirs=False)
+    if family == "shared":
+        kw.update(shared_p=1.0)
+    if family == "dirs":
+        kw.update(dir_p=0.8)
     ws = gen_ws(rng, **kw)
     hist = {"ws": ws, "algo": rng.choice(["xxh3", "sha256"]), "steps": [], "tags": [family]}
     cur = ws
@@ -879,15 +1006,46 @@ def gen_history(rng, family="mixed", nsteps=None, full=False, minimal=None):
         return hist
     for _ in range(n):
         r = rng.random()
+        if family == "dirs" and r < 0.3 and len(versions) >= 2:
+            cur = versions[-2]
+            versions.append(cur)
+            hist["steps"].append({"k": "edit", "ws": cur, "writes": [], "what": "revert sources to an earlier version"})
+            if rng.random() < 0.5:
+                e = gen_edit(rng, cur, ["salt"])
+                if e:
+                    hist["steps"].append({"k": "edit", "ws": e[0], "writes": e[1], "what": e[2]})
+                    cur = e[0]
+                    versions.append(cur)
+            build()
+            continue
+        if family == "dirs" and r < 0.55:
+            tp = gen_tamper(rng, cur, kinds=("moddir", "extradir", "rmindir", "rmdir"), prefer_dirs=1.0)
+            if tp:
+                hist["steps"].append({"k": "edit", "ws": cur, "writes": tp[0], "what": "tamper: " + tp[1]})
+                build()
+                continue
         if family == "tamper" and r < 0.6:
             tp = gen_tamper(rng, cur)
             if tp:
                 hist["steps"].append({"k": "edit", "ws": cur, "writes": tp[0], "what": "tamper: " + tp[1]})
                 build()
                 continue
-        if family in ("taint", "nocache") and r < 0.4:
+        if family in ("taint", "nocache", "taintedit") and r < (0.7 if family == "taintedit" else 0.4):
             l = rng.choice(sorted(cur["targets"]))
             hist["steps"].append({"k": "taint", "patterns": [l] if rng.random() < 0.8 else ["//..."]})
+            if rng.random() < 0.5:
+                # taint + edit of the same target: the tainted target has a cache miss anyway
+                e2 = copy.deepcopy(cur)
+                e2["targets"][l]["salt"] = "s%d" % rng.randint(200, 299)
+                hist["steps"].append({"k": "edit", "ws": e2, "writes": [], "what": "command of %s (just tainted)" % l})
+                cur = e2
+                versions.append(cur)
+            build()
+            if rng.random() < 0.5:
+                build()     # no-op rebuild right after the taint was consumed
+            continue
+        if family in ("relocate",) and r < 0.5 or (family in ("edits", "tamper", "wipe") and r > 0.94):
+            hist["steps"].append({"k": "relocate"})
             build()
             continue
         if family == "wipe" and r < 0.75:
@@ -933,6 +1091,12 @@ def gen_history(rng, family="mixed", nsteps=None, full=False, minimal=None):
             kinds = None
             if family == "alias":
                 kinds = ["viaalias", "viaalias", "realias", "adddep", "content"]
+            if family == "swap":
+                kinds = ["swapin", "swapin", "swapin", "content", "salt"]
+            if family == "shared":
+                kinds = ["exclfile", "exclfile", "content", "addfile", "salt"]
+            if family == "dirs":
+                kinds = ["addfile", "addfile", "addfile", "rmfile", "content", "salt"]
             if family == "checks":
                 kinds = ["flagoff", "flagoff", "flagon", "flagbad", "beh", "skipout", "addcheck", "content", "salt"]
             e = gen_edit(rng, cur, kinds)
@@ -979,6 +1143,8 @@ def describe(hist):
             out.append("taint " + " ".join(s["patterns"]))
         elif s["k"] == "drop":
             out.append("drop-blob " + s["path"])
+        elif s["k"] == "relocate":
+            out.append("relocate workspace (same cache)")
         else:
             fl = ("" if s.get("enable_cache", True) else " --enable-cache=false") + (" minimal" if s.get("minimal") else "") + \
                  (" --fail-fast" if s.get("fail_fast") else "")
